@@ -420,6 +420,52 @@ fn sqlc(args: &[String]) {
     writeln!(out, "{}", json!({"shard_done": shard})).unwrap();
 }
 
+/// c15 --in <ndjson> --out <ndjson> [--shard i --of n] [--e2e-every k]
+fn c15(args: &[String]) {
+    let input = arg(args, "--in").expect("--in");
+    let output = arg(args, "--out").expect("--out");
+    let shard: usize = arg(args, "--shard").map(|s| s.parse().unwrap()).unwrap_or(0);
+    let of: usize = arg(args, "--of").map(|s| s.parse().unwrap()).unwrap_or(1);
+    let every: usize = arg(args, "--e2e-every").map(|s| s.parse().unwrap()).unwrap_or(40);
+    let only: Option<usize> = arg(args, "--only").map(|s| s.parse().unwrap());
+    let f = std::io::BufReader::new(std::fs::File::open(&input).expect("open input"));
+    let mut out = std::fs::OpenOptions::new().create(true).append(true).open(&output).expect("open output");
+    let tnames = lvh::c15::table_names();
+    let (mut units, mut e2e) = (0usize, 0usize);
+    let mut vio: Vec<Value> = vec![];
+    if shard == 0 && only.is_none() {
+        vio.extend(lvh::c15::sanitize_checks());
+    }
+    writeln!(out, "{}", json!({"idx": 0, "begin": true})).unwrap();
+    for (i, line) in f.lines().enumerate() {
+        let line = line.unwrap();
+        if i % of != shard || only.map(|o| o != i).unwrap_or(false) {
+            continue;
+        }
+        let c: lvh::c15::Case = serde_json::from_str(&line).expect("case json");
+        units += 1;
+        for mut v in lvh::c15::unit(&c) {
+            v["case"] = json!(i);
+            vio.push(v);
+        }
+        if i % every == 0 || only.is_some() {
+            e2e += 1;
+            lvh::util::take_panics();
+            for mut v in lvh::c15::end_to_end(&c, &tnames[(i / every) % tnames.len()]) {
+                v["case"] = json!(i);
+                v["table"] = json!(tnames[(i / every) % tnames.len()]);
+                v["panics"] = json!(lvh::util::take_panics());
+                vio.push(v);
+            }
+        }
+        if vio.len() > 100 {
+            break;
+        }
+    }
+    writeln!(out, "{}", json!({"idx": 0, "units": units, "e2e": e2e, "violations": vio})).unwrap();
+    writeln!(out, "{}", json!({"shard_done": shard})).unwrap();
+}
+
 fn main() {
     lvh::util::quiet_panics();
     let args: Vec<String> = std::env::args().collect();
@@ -434,6 +480,7 @@ fn main() {
         Some("c01") => c01(&args[2..]),
         Some("arith") => arith(&args[2..]),
         Some("sqlc") => sqlc(&args[2..]),
+        Some("c15") => c15(&args[2..]),
         Some("record-stress") => record_stress(&args[2..]),
         _ => {
             eprintln!("usage: lvh <replay-hist> ...");
